@@ -13,8 +13,13 @@ c.execute("PRAGMA cache_size=%d" % spec.get("cache_size", 3))
 c.execute("PRAGMA synchronous=%s" % (spec.get("synchronous") or "FULL"))
 if spec.get("journal_size_limit"):
     c.execute("PRAGMA journal_size_limit=%d" % int(spec["journal_size_limit"])).fetchall()
+for s in spec["stmts"]:
+    if s.startswith("@"):  # before the transaction begins (ATTACH)
+        c.execute(s[1:])
 c.execute("BEGIN")
 for s in spec["stmts"]:
+    if s.startswith("@"):
+        continue
     try:
         c.execute(s)
     except sqlite3.Error as e:
